@@ -17,6 +17,7 @@ package main
 import (
 	"fmt"
 	"reflect"
+	"strings"
 )
 
 func isNullV(t *Ty, rv reflect.Value) bool {
@@ -196,4 +197,75 @@ func diffPath(t *Ty, a, b reflect.Value, path string) string {
 		}
 	}
 	return ""
+}
+
+// equalModuloLeadingBOM: got is want, except that strings which the JSON syntax evaluates as TEMPLATES when
+// an EvalContext is given - attribute values with everything inside them, map keys included; NOT block
+// labels, which are property names of the JSON body - have lost exactly one leading U+FEFF. *n counts the
+// strings that did. This is the whole effect of the pinned finding json-template-leading-bom
+// (hclsyntax.scanTokens strips a leading byte order mark in every scan mode): any other difference between
+// want and got is not explained by it.
+func equalModuloLeadingBOM(t *Ty, want, got reflect.Value, inAttr bool, n *int) bool {
+	const bom = "\ufeff"
+	switch t.K {
+	case TString:
+		w, g := want.String(), got.String()
+		if w == g {
+			return true
+		}
+		if inAttr && strings.HasPrefix(w, bom) && g == w[len(bom):] {
+			*n++
+			return true
+		}
+		return false
+	case TPtr:
+		if want.IsNil() != got.IsNil() {
+			return false
+		}
+		return want.IsNil() || equalModuloLeadingBOM(t.E, want.Elem(), got.Elem(), inAttr, n)
+	case TSlice:
+		if want.IsNil() != got.IsNil() || want.Len() != got.Len() {
+			return false
+		}
+		for i := 0; i < want.Len(); i++ {
+			if !equalModuloLeadingBOM(t.E, want.Index(i), got.Index(i), inAttr, n) {
+				return false
+			}
+		}
+		return true
+	case TMap:
+		if want.IsNil() != got.IsNil() || want.Len() != got.Len() {
+			return false
+		}
+		for _, k := range want.MapKeys() {
+			gv := got.MapIndex(k)
+			if !gv.IsValid() {
+				ks := k.String()
+				if !inAttr || !strings.HasPrefix(ks, bom) {
+					return false
+				}
+				gv = got.MapIndex(reflect.ValueOf(ks[len(bom):]).Convert(k.Type()))
+				if !gv.IsValid() {
+					return false
+				}
+				*n++
+			}
+			if !equalModuloLeadingBOM(t.E, want.MapIndex(k), gv, inAttr, n) {
+				return false
+			}
+		}
+		return true
+	case TStruct:
+		for i, f := range t.F {
+			if f.T.K == TBody {
+				continue
+			}
+			in := f.Kind == "attr" || f.Kind == "optional"
+			if !equalModuloLeadingBOM(f.T, want.Field(i), got.Field(i), in, n) {
+				return false
+			}
+		}
+		return true
+	}
+	return reflect.DeepEqual(want.Interface(), got.Interface())
 }
